@@ -57,7 +57,24 @@ func VerifSupported() []string {
 // [0,6], Transform2Type recognises exactly the documented commands (any letter case), applies the
 // command's arity class, and maps back to the same name.
 func HarnessC17Name(L int) {
-	name := verifrt.Bytes("name", L)
+	verifC17Name(verifrt.Bytes("name", L))
+}
+
+// HarnessC17Near: every documented command name with ONE of its letters replaced by wd arbitrary bytes
+// (so multi-byte look-alikes of a letter, control bytes, a letter of the other case ... in every position
+// of every name): recognised exactly when the result is a documented name up to ASCII letter case.
+func HarnessC17Near(wd int) {
+	sup := VerifSupported()
+	cand := sup[verifrt.Choice("command", len(sup))]
+	pos := verifrt.Concretize(verifrt.Int("position", 0, len(cand)-1))
+	name := append([]byte{}, cand[:pos]...)
+	name = append(name, verifrt.Bytes("replacement", wd)...)
+	name = append(name, cand[pos+1:]...)
+	verifC17Name(name)
+}
+
+func verifC17Name(name []byte) {
+	L := len(name)
 	n := verifrt.Int("nargs", 0, 6)
 	in := append([]byte{}, name...)
 	got := Transform2Type(in, n)
@@ -119,6 +136,7 @@ func HarnessC17Tables() {
 }
 
 func init() {
+	verifrt.Register("HarnessC17Near", func(p []int64) { HarnessC17Near(int(p[0])) })
 	verifrt.Register("HarnessC17Name", func(p []int64) { HarnessC17Name(int(p[0])) })
 	verifrt.Register("HarnessC17Tables", func(p []int64) { HarnessC17Tables() })
 }
